@@ -389,7 +389,13 @@ func Check(env *core.Env, rep *core.Report) *core.Result {
 		}
 		fmt.Fprintf(&y, "tasks:\n  t:\n%s    command: ['%s/bin/echo \"RUN%s $EventName $EventPath\" >> %s']\n", varDef, pre, vv, logf)
 		fmt.Fprintf(&y, "  t2:\n    command: ['/bin/echo \"RUN2 $EventName $EventPath\" >> %s']\n", logf2)
-		y.WriteString("watchers:\n  w:\n    task: t\n    watch: [\"*.txt\"]\n    exclude: [\"ex.txt\"]\n")
+		// scenario 2 also selects the directory d itself: events on its direct entries are reported
+		// through it, but a directory created inside it later is NOT selected by any pattern
+		watchList := `["*.txt"]`
+		if i == 2 {
+			watchList = `["*.txt", "d"]`
+		}
+		fmt.Fprintf(&y, "watchers:\n  w:\n    task: t\n    watch: %s\n    exclude: [\"ex.txt\"]\n", watchList)
 		if len(listed) > 0 {
 			fmt.Fprintf(&y, "    events: [%s]\n", strings.Join(listed, ", "))
 		}
@@ -471,7 +477,8 @@ func Check(env *core.Env, rep *core.Report) *core.Result {
 			ops = append(ops, op+" "+f)
 			if strings.HasPrefix(f, "f") {
 				touchedSel[f] = true
-			} else {
+			} else if !(i == 2 && strings.HasPrefix(f, "d/")) {
+				// (in scenario 2 the directory d is selected: its direct entries report through it)
 				touchedOther[f] = true
 			}
 			time.Sleep(1250 * time.Millisecond)
@@ -482,6 +489,24 @@ func Check(env *core.Env, rep *core.Report) *core.Result {
 			time.Sleep(2500 * time.Millisecond)
 		}
 		p.waitStable(1500*time.Millisecond, 10*time.Second)
+		if i == 2 {
+			// a directory made inside the selected directory, then a file written inside the new one
+			_ = os.MkdirAll(filepath.Join(root, "d", "sub"), 0o755)
+			time.Sleep(2500 * time.Millisecond)
+			_ = ioutil.WriteFile(filepath.Join(root, "d", "sub", "deep.dat"), []byte("x"), 0o644)
+			time.Sleep(1250 * time.Millisecond)
+			if fh, e := os.OpenFile(filepath.Join(root, "d", "sub", "deep.dat"), os.O_APPEND|os.O_WRONLY, 0o644); e == nil {
+				_, _ = fh.WriteString("more\n")
+				_ = fh.Close()
+			}
+			time.Sleep(3 * time.Second)
+			for _, e := range p.events() {
+				if e.E == "watch-event" && e.W == "w" && strings.HasPrefix(e.Path, "d/sub/") {
+					add("events:unselected-directory-watched", fmt.Sprintf("watch: [*.txt, d]: after `mkdir d/sub` the watcher received %s on %s - nothing selects d/sub or what is in it", e.Op, e.Path), map[string]interface{}{"yaml": y.String()})
+					return
+				}
+			}
+		}
 		// KeepsServing: after all of that the watcher still serves events - one more write to a selected
 		// file that still exists must be received
 		for _, f := range []string{"f1.txt", "f2.txt", "f3.txt"} {
